@@ -245,6 +245,7 @@ Addressed(S, p, n) ==
   LET Vk == ViewK(S, p)
       V0 == IF p # "" /\ p \in DOMAIN Vk /\ ResultReady(Vk[p]) /\ Vk[p].running = {} /\ Vk[p].postDue = {} /\ n \notin DOMAIN Vk[p].pending THEN View(S) ELSE Vk
   IN IF p \in DOMAIN V0 THEN [why |-> "ok", V |-> V0]
+     ELSE IF IsSubPrefix(S.g, p) /\ IsDag(S.g) /\ CtrlPreds(S.g, SubNode(S.g, p)) = {} THEN [why |-> "dag-node-without-control-predecessor-executed", V |-> V0]
      ELSE IF ~CanOpen(S.g, V0, p) THEN [why |-> "exec-in-graph-node-not-triggered", V |-> V0]
      ELSE IF OpenWhy(S.g, V0, p) # "ok" THEN [why |-> OpenWhy(S.g, V0, p), V |-> V0]
      ELSE [why |-> "ok", V |-> Open(S.g, V0, p)]
